@@ -8,7 +8,8 @@
                         and inside extension raw JSON through the registered parser types) as a secret leaf
      live c             c with the positions the effective-config setters keep nil set to nil
      dump_endpoint e    the JSON a query variant of /api/v1/config_dump serialises (redactor program of redact.go, then
-                        the model of encoding/json with the custom MarshalJSON hooks)
+                        the model of encoding/json with the custom MarshalJSON hooks, then the JSON-level redaction of
+                        the serialized text: RedactDumpJSON)
      dump_log e         the storage regions the redactor writes while producing it *)
 From Coq Require Import List String Bool ZArith NArith.
 From MV Require Import Lib.GoJson Lib.GoJsonFacts Lib.CfgStore Gen.CfgTypes Model.Redact Proofs.Redact.
@@ -33,6 +34,17 @@ Proof. exact (eq_refl true). Qed.
 Theorem c20_covers : covers_all = true.
 Proof. exact covers_all_true. Qed.
 Print Assumptions c20_covers.
+(* c20_covers also accounts for what the typed program has NO rule for.  (1) Every opaque position of the graph
+   (cfg_blob_positions, enumerated by the translator: filter / per-filter / health-check / extend-verify / sds / codec
+   configs typed map[string]interface{} or interface{}, raw xDS resources typed json.RawMessage): covered because every
+   serialisation of the dump goes through the JSON-level redaction (src_dump_scrubs_output, read from DumpJSON and the
+   admin handler by go/ast) - or else there must be no such position.  (2) Every json-tagged string field in the tree
+   whose name suggests a secret has been looked at (reviewed_keylike): a registered filter/extension factory that starts
+   decoding key material under another member name shows up in cfg_keylike_fields and makes c20_covers false. *)
+Theorem c20_covers_blobs : blob_positions_ok = true /\ keylike_ok = true.
+Proof. exact (covers_all_blobs covers_all_true). Qed.
+Theorem c20_source_scrubs_output : src_dump_scrubs_output = true.
+Proof. exact (eq_refl true). Qed.
 
 (* NO LEAK.  For EVERY configuration value c (any list lengths, map sizes, nesting; `vsecrets c = []` only says the
    input carries none of the model's secret markings yet), every endpoint and parameter, every amount of encoder
@@ -42,6 +54,20 @@ Theorem c20_no_leak : forall fuel e next0 c, vsecrets c = [] ->
   Forall ok_secret (jsecrets (dump_endpoint fuel e next0 (taint cfg_structs root_ty (live c)))).
 Proof. exact (no_leak graph_ok_holds). Qed.
 Print Assumptions c20_no_leak.
+
+(* NO LEAK, OPAQUE BLOBS AND ANYTHING ELSE.  For EVERY configuration value c - no premise at all: typed or opaque
+   positions, marked or not, whatever the typed program did - every endpoint, parameter and amount of fuel: in the
+   response every string member named "private_key" (any case), at any depth, is empty or the placeholder.  This is what
+   covers a network/stream filter configuration (map[string]interface{}) that embeds a TLS context, a per-filter
+   config, a health-check session config, a raw xDS resource ... *)
+Theorem c20_no_leak_any_private_key : forall fuel e next0 c,
+  Forall ok_secret (key_strings (dump_endpoint fuel e next0 c)).
+Proof. exact dump_no_key_strings. Qed.
+Print Assumptions c20_no_leak_any_private_key.
+(* ... and that pass changes nothing else in the response *)
+Theorem c20_scrub_only_keys : forall fuel e next0 c,
+  same_but_keys (dump_endpoint_with false fuel e next0 c) (dump_endpoint_with true fuel e next0 c).
+Proof. exact dump_scrub_only_keys. Qed.
 
 (* PURE.  For every configuration value, endpoint and first free region next0 (the live configuration occupies
    regions < next0): every write of the redactor targets a region >= next0, i.e. storage it allocated itself ... *)
@@ -115,3 +141,16 @@ Proof. exact leak_without_extends. Qed.
 Theorem c20_pure_refuted_in_place :
   existsb (fun r => N.ltb r w_next0) (snd (dump_full_with InPlace true 64 w_next0 (taint cfg_structs root_ty (live w_conf)))) = true.
 Proof. exact live_write_in_place. Qed.
+(* (c) no scrub of the serialized dump (typed program only, the tree before 658458423): the key of a stream filter
+   configuration - a direct member of the map and one nested in a blob - is printed by the listener and full endpoints;
+   with the scrub none is, and the response still has its 7 private_key members *)
+Theorem c20_no_leak_refuted_without_scrub :
+  vsecrets w_conf_blob = [] /\
+  leaked (key_strings (dump_endpoint_with false 64 EAllListeners w_next0_blob (taint cfg_structs root_ty (live w_conf_blob))))
+    = ["KEY-FILTER-TOP"; "KEY-FILTER-NESTED"] /\
+  leaked (key_strings (dump_endpoint_with false 64 EFull w_next0_blob (taint cfg_structs root_ty (live w_conf_blob))))
+    = ["KEY-FILTER-TOP"; "KEY-FILTER-NESTED"] /\
+  leaked (key_strings (dump_endpoint 64 EAllListeners w_next0_blob (taint cfg_structs root_ty (live w_conf_blob)))) = [] /\
+  leaked (key_strings (dump_endpoint 64 EFull w_next0_blob (taint cfg_structs root_ty (live w_conf_blob)))) = [] /\
+  List.length (key_strings (dump_endpoint 64 EFull w_next0_blob (taint cfg_structs root_ty (live w_conf_blob)))) = 7.
+Proof. exact blob_leak_without_scrub. Qed.
